@@ -15,6 +15,7 @@ pub mod lex;
 pub mod mem;
 pub mod memrw;
 pub mod memts;
+pub mod metacs;
 pub mod scope;
 pub mod sel;
 pub mod selpure;
@@ -35,6 +36,7 @@ pub fn find(name: &str) -> Option<LaneFn> {
         "h5" => h5::run,
         "hash" => hash::run,
         "nsprobe" => nsprobe::run,
+        "metacs" => metacs::run,
         "pass" => pass::run_lane,
         "patho" => patho::run,
         "proto" => proto::run,
